@@ -196,6 +196,7 @@ def deep_temporal(full):
         level = [(o, f) for o in ('not', 'X', 'F', 'G') for f in level]
         if depth_ >= 3:
             out += level
+    out += fm.ltl_nary()[::3]
     return out
 
 
